@@ -16,6 +16,7 @@
       Wire.rename / reparent / reparentAndRename     preCheck >>> renameOld / reparentOld / reparentAndRenameOld  (BidirWire's copies
                                                      are identical; the pre-check is commit c407a05)
       Interface.__init__/addSourceToSink/…           newIface / ifS2K / ifK2S
+      Logic.wires(name, num, width)                  newWires (loop of newWire over name_0 … name_{num-1})
       Logic.addInterfaceSource / addInterfaceSink    addIfSource / addIfSink
       disconnectWireFromLogicObject                  disconnect
       debug.checkIntegrity / checkPort               checkIntegrity / checkInPort / checkOutPort
@@ -276,6 +277,14 @@ def addInOut (g : G) (o : Nat) (name : String) (w : Nat) : G × Res :=
 
 /-! ### Interfaces -/
 
+/-- the names `'{}_{}'.format(name, i)` for `i in range(num)` -/
+def arrayNames (name : String) (num : Nat) : List String := (List.range num).map fun i => name ++ "_" ++ toString i
+
+/-- `Logic.wires(name, num, width)`: `for i in range(num): ret.append(self.wire(name_i, width))` — every element goes through
+    `Wire.__init__` → `appendWire`, so a clash raises (the elements created before it stay) -/
+def newWires (g : G) (p : Nat) (name : String) (num : Nat) : G × Res :=
+  forEach g (arrayNames name num) (fun g nm => newWire g p nm false)
+
 def newIface (g : G) (p : Nat) (name : String) : G × Res :=
   ({ g with ifaces := g.ifaces ++ [{ parent := p, name := name }] }, .ok ())
 
@@ -364,6 +373,7 @@ inductive Op
   | addIfSource (o : Nat) (name : String) (i : Nat)
   | addIfSink (o : Nat) (name : String) (i : Nat)
   | disconnect (w : Nat) (o : Nat)
+  | wires (parent : Nat) (name : String) (num : Nat)
   deriving DecidableEq, Repr
 
 def step (g : G) : Op → G × Res
@@ -381,6 +391,7 @@ def step (g : G) : Op → G × Res
   | .addIfSource o n i => addIfSource g o n i
   | .addIfSink o n i => addIfSink g o n i
   | .disconnect w o => disconnect g w o
+  | .wires p n k => newWires g p n k
 
 /-- a construction history: every call is attempted, raised or not (the caller catches and goes on) -/
 def run (g : G) (ops : List Op) : G := ops.foldl (fun g op => (step g op).1) g
